@@ -1058,6 +1058,23 @@ def c17_fx(tier: str = "quick", seed: int = 0) -> Result:
         obs.append(Ob(f"{base}/CLexer._make_token/only-token-constructor", DISCHARGED if ok else UNDECIDED, BACKEND, functions=[mk.qual],
                       detail=("Token(...) is constructed only in _make_token: " + "; ".join(fx.src_of(n) for n in here)) if ok
                       else "no Token(...) construction found"))
+    # (4) objects that carry coordinates are never used by value (keys, ==, in, hash): pyvc/fx_carriers.py
+    from . import fx_carriers as FC
+    trees = {m.rel: m.tree for m in prog.modules.values() if m.name in ("c_parser", "ast_transforms", "c_lexer")}
+    retc = FC.returning_carriers(trees)
+    for f in sorted(prog.real_functions(), key=lambda f: f.key):
+        if f.module.name not in ("c_parser", "ast_transforms", "c_lexer"):
+            continue
+        if f.cls is not None and f.cls.key in (FR.COORD_CLASS, FR.TOKEN_CLASS):
+            continue
+        hits = FC.scan_function(f.node, retc, f.module.rel)
+        if hits:
+            obs.append(Ob(f"C17/fx/coord-carrier-not-a-key/{f.key}", REFUTED, BACKEND, functions=[f.qual], replay=REPLAY_LAYOUT,
+                          detail="a Token / Coord (dataclasses compared and hashed over ALL fields, line and column included) is used by value:\n"
+                                 + "\n".join(hits[:6])))
+    obs.append(Ob("C17/fx/coord-carrier-not-a-key", DISCHARGED, BACKEND, functions=[],
+                  detail=f"functions returning a Token/Coord by annotation: {sorted(retc)}; no carrier is a key, a set element, "
+                         "an operand of == / != / in, or an argument of hash() in any other function"))
     res.assumptions.append("None-ness of a coordinate (`x is None` / `x is not None`) is a function of the token sequence")
     res.assumptions.append("coordinates live only in attributes named coord / lineno / column / filename and in Coord objects "
                            "(every load of such an attribute is a source; checked: tainted values are stored nowhere else)")
